@@ -212,3 +212,35 @@ package tiny
 //@   modifies LRUCache.list, LRUCache.table, LRUCache.size, LRUCache.capacity, LRUCache.evictions, mapsof(lru.table), list.List.lmem, list.List.lcnt, list.Element.lrk, list.Element.Value, entry.key, entry.value
 //
 // ==================== C05: TTL memory cache ====================
+//
+// ---- sharded wrapper: a key always goes to the same shard; every call is forwarded to that shard's cache ----
+//@ ghost wideShards int
+//@ opaque shardOf(key interface{}) int
+//@ func funcval w.calKeyFn
+//@   trusted the field holds ReMap.SimpleIndex or ReMap.XHashIndex (installed by newWideLRUCache); range [0, shards) proved under C17; a function of the key alone
+//@   ensures result == shardOf(key) && 0 <= result && result < wideShards
+//@   modifies
+//@ pure widewf(w *WideLRUCache) bool = w != nil && len(w.ls) == wideShards && forall i int :: { w.ls[i] } 0 <= i && i < len(w.ls) ==> w.ls[i] != nil && !held(w.ls[i].mu)
+//@ func WideLRUCache.calculateKey
+//@   requires widewf(w)
+//@   ensures #sameshard result == w.ls[shardOf(key)] && 0 <= shardOf(key) && shardOf(key) < len(w.ls)
+//@   modifies
+//@ func WideLRUCache.Get
+//@   requires widewf(w)
+//@   ensures #forwarded ok <==> cs(has(w.ls[shardOf(key)].table, key))
+//@   modifies everything()
+//@ func WideLRUCache.Peek
+//@   requires widewf(w)
+//@   ensures #forwarded ok <==> cs(has(w.ls[shardOf(key)].table, key))
+//@   modifies everything()
+//@ func WideLRUCache.Exist
+//@   requires widewf(w)
+//@   ensures #forwarded result <==> cs(has(w.ls[shardOf(key)].table, key))
+//@   modifies everything()
+//@ func WideLRUCache.Set
+//@   requires widewf(w)
+//@   modifies everything()
+//@ func WideLRUCache.Delete
+//@   requires widewf(w)
+//@   ensures #forwarded result <==> cs(has(w.ls[shardOf(key)].table, key))
+//@   modifies everything()
